@@ -40,7 +40,7 @@ Theorem C19_node_ids_distinct :
     build o keys vals = Ok T -> t_root T = Some r ->
     NoDup (map tree_id (QueryProofs.subtrees r)) /\
     Permutation (map tree_id (QueryProofs.subtrees r)) (List.seq 0 (length (QueryProofs.subtrees r))).
-Proof. intros o keys vals T r Hb Hr. split; [eapply built_ids_nodup; eassumption|eapply built_ids_range; eassumption]. Qed.
+Proof. exact built_ids. Qed.
 Print Assumptions C19_node_ids_distinct.
 
 (* the number of lines is Stat's NodeCnt *)
